@@ -26,6 +26,14 @@ def run(chk):
         for r in sides(N + 1):
             for n in range(0, N + 1):
                 rc.append({"kind": "range", "l": "_" if l is None else l, "r": "_" if r is None else r, "n": n, "meta": (l, r, n)})
+    # UserBounds::matches (used by the line-at-a-time and -M walks), incl. the sign-mismatch errors
+    mc = []
+    for l in sides(N):
+        for r in sides(N):
+            for idx in range(-N, N + 1):
+                if idx != 0:
+                    mc.append({"kind": "matches", "l": "_" if l is None else l, "r": "_" if r is None else r, "idx": idx})
+    evaluate(chk, mc, "K-matches", spec=False)
     lines, impl, model = evaluate(chk, rc, "K-range", spec=False)
     idx = {c["meta"]: i for c, i in zip(rc, impl)}
     for (l, r, n), res in idx.items():
